@@ -1,7 +1,9 @@
-"""Key pool for the C15 check (test material only).  Cached under /verif/.work/C15/keys.
+"""Key pool for the C15 check (test material only).
 
-ECC keys are derived from fixed labels (deterministic); RSA keys are generated once with `cryptography` and kept in the
-cache (pool.json holds the numbers, <kid>.pem / <kid>.pub the files SPSDK reads).  A lost cache is rebuilt."""
+RSA keys are FIXED material committed in tools/props/c15.keys.json (PEM strings + public numbers; nothing is generated at run
+time, so a fresh sandbox without /verif/.work starts immediately).  ECC keys are derived from fixed labels (deterministic,
+a few milliseconds each).  The files SPSDK reads (<kid>.pem private / <kid>.pub public) are written under
+/verif/.work/C15/keys on every run when they are missing or differ."""
 import hashlib
 import json
 import os
@@ -9,6 +11,8 @@ import os
 from cryptography.hazmat.primitives import serialization as ser
 from cryptography.hazmat.primitives.asymmetric import ec, rsa
 
+HERE = os.path.dirname(os.path.abspath(__file__))
+FIXTURE = os.path.join(HERE, "c15.keys.json")
 CURVES = {256: ec.SECP256R1, 384: ec.SECP384R1, 521: ec.SECP521R1}
 # kid -> spec
 SPECS = {}
@@ -23,57 +27,57 @@ SPECS["r2048e3_0"] = ("rsa", 2048, 3)
 SPECS["r3072_0"] = ("rsa", 3072, 65537)
 
 
-def _write(path, data):
+class KeyFixtureError(Exception):
+    """the committed key material is missing or inconsistent: a harness problem, not a property violation"""
+
+
+def _write_if_changed(path, data):
+    try:
+        if open(path, "rb").read() == data:
+            return
+    except OSError:
+        pass
     tmp = path + ".tmp%d" % os.getpid()
     with open(tmp, "wb") as f:
         f.write(data)
     os.replace(tmp, path)
 
 
-def _files(kdir, kid, priv):
-    _write(os.path.join(kdir, kid + ".pem"),
-           priv.private_bytes(ser.Encoding.PEM, ser.PrivateFormat.PKCS8, ser.NoEncryption()))
-    _write(os.path.join(kdir, kid + ".pub"),
-           priv.public_key().public_bytes(ser.Encoding.PEM, ser.PublicFormat.SubjectPublicKeyInfo))
-
-
 def load_pool(kdir):
     """-> {kid: {"k": "rsa", "bits", "n", "e"} | {"k": "ecc", "bits", "x", "y"}} with ints; files guaranteed present."""
     os.makedirs(kdir, exist_ok=True)
-    pj = os.path.join(kdir, "pool.json")
-    pool = {}
     try:
-        pool = json.load(open(pj))
-    except Exception:  # noqa
-        pool = {}
-    changed = False
+        fx = json.load(open(FIXTURE))["rsa"]
+    except Exception as ex:  # noqa
+        raise KeyFixtureError(f"cannot read {FIXTURE}: {ex!r}") from ex
+    out = {}
     for kid, spec in SPECS.items():
-        have = kid in pool and os.path.exists(os.path.join(kdir, kid + ".pem")) and os.path.exists(os.path.join(kdir, kid + ".pub"))
-        if have:
-            continue
-        changed = True
         if spec[0] == "ecc":
             bits = spec[1]
             d = int.from_bytes(hashlib.sha512(f"c15-key-{kid}".encode()).digest() * 2, "big") % (1 << (bits - 8)) + 1   # well below the group order
             priv = ec.derive_private_key(d, CURVES[bits]())
             nums = priv.public_key().public_numbers()
-            pool[kid] = {"k": "ecc", "bits": bits, "x": hex(nums.x), "y": hex(nums.y)}
+            out[kid] = {"k": "ecc", "bits": bits, "x": nums.x, "y": nums.y}
+            pem = priv.private_bytes(ser.Encoding.PEM, ser.PrivateFormat.PKCS8, ser.NoEncryption())
+            pub = priv.public_key().public_bytes(ser.Encoding.PEM, ser.PublicFormat.SubjectPublicKeyInfo)
         else:
-            priv = rsa.generate_private_key(spec[2], spec[1])
-            nums = priv.public_key().public_numbers()
-            pool[kid] = {"k": "rsa", "bits": spec[1], "n": hex(nums.n), "e": nums.e}
-        _files(kdir, kid, priv)
-    if changed:
-        _write(pj, json.dumps(pool).encode())
-    out = {}
-    for kid, v in pool.items():
-        if kid not in SPECS:
-            continue
-        w = dict(v)
-        for f in ("n", "x", "y"):
-            if f in w:
-                w[f] = int(w[f], 16)
-        out[kid] = w
+            if kid not in fx:
+                raise KeyFixtureError(f"{FIXTURE} has no key {kid}")
+            v = fx[kid]
+            n = int(v["n"], 16)
+            if v["bits"] != spec[1] or v["e"] != spec[2] or n.bit_length() != spec[1]:
+                raise KeyFixtureError(f"{FIXTURE}: key {kid} is not RSA-{spec[1]} with e = {spec[2]}")
+            out[kid] = {"k": "rsa", "bits": v["bits"], "n": n, "e": v["e"]}
+            pem, pub = v["pem"].encode(), v["pub"].encode()
+            try:
+                pn = ser.load_pem_private_key(pem, None, unsafe_skip_rsa_key_validation=True).public_key().public_numbers()
+                qn = ser.load_pem_public_key(pub).public_numbers()
+            except Exception as ex:  # noqa
+                raise KeyFixtureError(f"{FIXTURE}: key {kid} does not load: {ex!r}") from ex
+            if (pn.n, pn.e) != (n, v["e"]) or (qn.n, qn.e) != (n, v["e"]):
+                raise KeyFixtureError(f"{FIXTURE}: PEM and numbers of key {kid} disagree")
+        _write_if_changed(os.path.join(kdir, kid + ".pem"), pem)
+        _write_if_changed(os.path.join(kdir, kid + ".pub"), pub)
     return out
 
 
